@@ -168,6 +168,25 @@ def data_cases(rnd, n=300):
             yield {"lines": L("SYM EQU 7", " %s %s" % (mn, ",".join(es))), "tag": "dataN", "meta": {"mn": mn, "elems": es, "stmt": 1}}
     for v in [0, 1, 2, 5, 255, 256, 1000, 65535, -1, "$10", "$0100", "SYM", ""]:
         yield {"lines": L("SYM EQU 7", " RMB %s" % v, " NOP"), "tag": "rmb", "meta": {"mn": "RMB", "v": v, "stmt": 1}}
+    # symbols, expressions and labels in single-value data directives and in RMB / ORG (evaluated since 3dd5ba5)
+    DS = [
+        (["SYM EQU 7", " ORG $3F00", "T FDB T", " FDB L2", " FDB L2+1", " FCB SYM+1", "L2 FCB SYM", " FDB SYM"],
+         {2: "3f00", 3: "3f07", 4: "3f08", 5: "08", 6: "07", 7: "0007"}),
+        (["N EQU 300", "B RMB N", " NOP"], {1: "00" * 300}),
+        (["N EQU 0", "B RMB N", " NOP"], {1: ""}),
+        (["S EQU $2000", " ORG S", "A NOP", " FDB A", " FDB A-1"], {3: "2000", 4: "1fff"}),
+        ([" ORG $10", "L NOP", " FCB L", " FDB L", " FCB L+1"], {2: "10", 3: "0010", 4: "11"}),
+        (["L NOP", " NOP", " FDB L", " FDB L-1"], {2: "0000", 3: "ffff"}),
+        ([" ORG $100", "L NOP", " FCB L"], None),            # an address above $FF does not fit a byte
+        (["L NOP", " RMB L"], None),                          # a label is not a count
+        (["L NOP", " ORG L"], None),                          # a label is not an origin
+        ([" FCB 0-1", " FCB 0-128", " FDB 0-1", " FDB 1-32769"], {0: "ff", 1: "80", 2: "ffff", 3: "8000"}),
+        ([" FCB 0-129"], None),
+        ([" FCB 255+1"], None),
+        ([" FDB 65535+1"], None),
+    ]
+    for lines, expect in DS:
+        yield {"lines": L(*lines), "tag": "datasym", "meta": {"mn": "DATASYM", "expect": expect, "stmt": 0}}
     PRINT = "".join(chr(c) for c in range(0x20, 0x7F))
     for _ in range(n // 2):
         d = rnd.choice("\"'/|!.")
@@ -264,6 +283,28 @@ def pcr_interacting(rnd, n=200):
         if len(label_stmt) < k:
             continue
         yield {"lines": L(*lines), "tag": "pcr-multi", "meta": {"refs": [(s, label_stmt[t]) for s, t in refs]}}
+
+
+def pcr_runs(rnd, thorough=False):
+    """a run of consecutive label,PCR statements (position-independent code style), each addressing its own label; the
+    labels lie `stride` bytes apart after `gap` filler bytes, or before the run (backward), so that all statements of
+    the run are undecided at once and sit around the 8/16-bit boundary together"""
+    MNS = ["LDA", "ADDA", "STA", "LDX", "LEAY", "STX", "LDY", "CMPA", "LDD"]
+    gaps = range(100, 131) if thorough else list(range(105, 127, 2)) + [113, 120, 123]
+    for k in ((2, 3, 4, 5, 6, 7, 8, 9) if thorough else (2, 5, 6, 8)):
+        for stride in ((1, 2, 3) if thorough else (2,)):
+            for gap in gaps:
+                for ind in ((False, True) if thorough else (False,)):
+                    run_ = [" %s %s" % (MNS[i % len(MNS)], ("[V%d,PCR]" if ind else "V%d,PCR") % i) for i in range(k)]
+                    vars_ = []
+                    for i in range(k):
+                        vars_.append("V%d NOP" % i)
+                        vars_ += [" NOP"] * (stride - 1)
+                    fwd = run_ + [" RMB %d" % gap] + vars_
+                    # statement indices: run 0..k-1, RMB at k, V_i at k+1+i*stride
+                    yield {"lines": L(*fwd), "tag": "pcr-run", "meta": {"refs": [(i, k + 1 + i * stride) for i in range(k)]}}
+                    bwd = vars_ + [" RMB %d" % gap] + run_
+                    yield {"lines": L(*bwd), "tag": "pcr-run", "meta": {"refs": [(k * stride + 1 + i, i * stride) for i in range(k)]}}
 
 
 MN_ALL = [i.mnemonic for i in INSTRUCTIONS]
